@@ -8,7 +8,7 @@ VERIF = os.path.dirname(os.path.dirname(os.path.abspath(__file__)))
 
 COMMON_NOTE = ("Held on the executions explored, not for all inputs. Trusted base: Linux ext4/tmpfs semantics, "
                "Python os/hashlib, the reference models under fcv/ (transcribed from README/--help), the hooks "
-               "behind --cfg fclones_verif (H1 disk-kind pin, H3 sync points/jitter/events) which only add code. ")
+               "behind --cfg fclones_verif (H1 disk-kind pin, H3 sync points/jitter/events, H5 semaphore permits at the start/end of grouping) which only add code. ")
 
 CHECKS = {
     "C01": dict(
@@ -20,10 +20,12 @@ CHECKS = {
              "functions, cache cold/warm, pinned SSD/HDD/unknown disk kind, prefix/suffix sizes, transforms that "
              "shrink/keep/expand, thread pools, ext4 and tmpfs, and (8% of the trees) two tmpfs file systems mounted for the case "
              "whose files share inode numbers; a quarter of the runs take their (overlapping, repeated, re-spelled) input paths from "
-             "--stdin; 6% pin SSD with prefix and suffix as long as whole files. Exploration is the right level: the property "
+             "--stdin; 6% pin SSD with prefix and suffix as long as whole files; 3-4% are trees of sparse files of 9 MiB .. 100 MiB and of 2 GiB .. just over 4 GiB "
+             "(holes with a few marked bytes, decoys differing in one byte next to 2^31, 2^32, the 64 MiB suffix threshold of rotational devices and the "
+             "prefix/suffix boundaries; compared through SEEK_DATA). Exploration is the right level: the property "
              "quantifies over inputs x configurations and the oracle is exact on each execution.",
-        note=COMMON_NOTE + "Hash collisions would be reported as violations. Files are <= 300 KB (the 64 MiB HDD suffix "
-             "threshold is reached through the SSD pin).",
+        note=COMMON_NOTE + "Hash collisions would be reported as violations. Randomly filled files are <= 300 KB; beyond that only sparse files "
+             "(zeros except a few bytes) are used, up to 4 GiB + 70000 bytes.",
         design="4/C01"),
     "C03": dict(
         category="exploration",
@@ -43,7 +45,8 @@ CHECKS = {
              "(incl. names with leading/trailing white space next to same-length decoys named like the trimmed name), "
              "text and JSON reports and random dedupe options, move targets that already hold entries, root names that are string "
              "prefixes of each other, the dedupe command run from another working directory and under a varying ambient environment (colour conventions, "
-             "locale, a PWD that is not the working directory), names at the 255-byte limit. A model-free oracle compares full inventories: no "
+             "locale, a PWD that is not the working directory), names at the 255-byte limit, --isolate DIR given to the dedupe command itself (hard-link sets outside every "
+             "isolated root), empty files in reports made with --min 0. A model-free oracle compares full inventories: no "
              "content digest disappears from regular files, at least max(1,n) replicas of every group are byte-, "
              "inode- and mtime-identical, nothing outside the reported groups changes, linked/cloned paths read back "
              "their bytes, moved bytes exist under DIR. `dedupe` is exercised natively (EOPNOTSUPP: nothing may change) "
@@ -58,11 +61,12 @@ CHECKS = {
         text="For generated groups (2..8 files; in 8% of the cases one group of 34..140 files with 2-3 distinct time stamps; names "
              "that are not valid UTF-8 with patterns built from their lossy form; hard-link subsets, 1-3 roots, tied/distinct a/m/c/b-times and nesting) and real "
              "command lines (12 priorities single and chained, --name/--path/--keep-name/--keep-path globs, n given by -n, "
-             "--rf-over or inherited, --isolate/-H inherited from the report header, text and JSON reports) the set of paths "
+             "--rf-over or inherited, --isolate/-H inherited from the report header or --isolate DIR given to the dedupe command itself, empty files with --min 0, text and JSON reports) the set of paths "
              "the --dry-run script names (decoded by bash) and the set of paths the real run processes (LD_PRELOAD event log "
              "and inventory diff) must both equal the drop set of an independent model of the documented rules.",
         note=COMMON_NOTE + "Sub-group time keys follow the doc comments; a group whose outcome would differ under the opposite "
-             "(min/max) aggregation is skipped as ambiguous and counted. Patterns use the README glob dialect via fcv/globref.py.",
+             "(min/max) aggregation of the time stamps is skipped as ambiguous and counted (the nesting keys are not ambiguous: a replica of several paths ranks by its "
+             "deepest / shallowest path). Patterns use the README glob dialect via fcv/globref.py.",
         design="4/C08"),
     "C16": dict(
         category="exploration",
@@ -71,7 +75,7 @@ CHECKS = {
              "constructs, as absolute and as base-dir-relative patterns, and compares Pattern::matches with an independent "
              "backtracking matcher on ~900 paths (incl. newline, non-ASCII, regex metacharacters); for every matching path "
              "all ancestor directories must pass matches_partially / PathSelector::matches_dir (conservative pruning), "
-             "excluded-directory pruning must only hide excluded paths, and --ignore-case is swept (matching, and pruning outside the "
+             "excluded-directory pruning must only hide excluded paths (also below a directory whose own path is excluded), a panic anywhere in the pattern code is a violation, and --ignore-case is swept (matching, and pruning outside the "
              "class of the known finding D6). The bounded part is "
              "exhaustive; longer globs are random.",
         note=COMMON_NOTE + "Reference matcher written from the README table only. Undefined constructs are skipped. Known finding "
@@ -85,7 +89,8 @@ CHECKS = {
              "with arg::quote / arg::join (verif_api hook); fclones' own splitter and bash (scripts of `printf '%s\\0' ...` "
              "lines) must both return exactly the original bytes; panics are caught and reported. CLI level: the "
              "'# Command:' line of real `group` runs with hostile root names and arguments is decoded by bash and compared "
-             "with the real argv, and the JSON header command likewise.",
+             "with the real argv, and the JSON header command likewise; a quarter of the CLI cases have 1500-4000 arguments or one argument of 50-120 KB, and every "
+             "CLI report is read back by `remove --dry-run`, which must accept it.",
         note=COMMON_NOTE + "bash 5 (LC_ALL=C, HOME=/nonexistent-fcv so that tilde expansion is visible) is the oracle. "
              "The bounded part is exhaustive; everything longer is sampled.",
         design="4/C17"),
@@ -116,7 +121,7 @@ CHECKS = {
              "scenario is measured. A native release build runs the same monitors with 2..64 threads under a watchdog with a "
              "quiescence test. In situ: `group` under a low RLIMIT_NOFILE with far more hashing threads than descriptors (and "
              "zero-sized = auto pools) must finish, never hit EMFILE, and keep the number of simultaneously open tree files "
-             "(interposer log) within the permits. Scenarios with a permit held for more than a second of (virtual) time.",
+             "(interposer log) within the permits; the open-files semaphore starts with max(RLIMIT_NOFILE-5, 64) permits and ends with as many (hook H5). Scenarios with a permit held for more than a second of (virtual) time.",
         note="Exploration of interleavings, not exhaustion: a seeded sample under Miri's scheduler (quick 16 seeds x 3 rates x 56 "
              "scenarios; thorough 96 seeds x 5 rates x 218 scenarios). Trusted base: Miri's model of std Mutex/Condvar; hook H4 only "
              "adds notify_all/count accessors.",
@@ -144,7 +149,8 @@ CHECKS = {
              "processed by `bash script` must equal the tree left by the real run (paths, types, bytes, link targets, hard-link "
              "partition, no temp leftovers); the script must be identical modulo temp names under RAYON_NUM_THREADS 1/2/16 "
              "with hook jitter at the script generation. 15% of the reports come from a transform over files of different sizes, the "
-             "ambient environment varies.",
+             "ambient environment varies; 30% of the cases write the script again with -o onto a file holding an older, longer plan (must equal stdout); "
+             "explicit --isolate DIR and empty files (--min 0) as in C08.",
         note=COMMON_NOTE + "bash 5 is the decoder/executor. `move` and `dedupe` scripts are compared with the real run but not executed "
              "(the property only requires execution equivalence for remove and link). FICLONE is emulated for `dedupe`.",
         design="4/C11"),
@@ -173,7 +179,7 @@ CHECKS = {
         text="Real `group | move DIR` pipelines with DIR outside/inside the scanned tree, on the same file system or on tmpfs "
              "(EXDEV, copy fallback), absolute or relative, pre-populated at mapped target paths with files, directories, "
              "symlinks (also dangling) and non-directories at parent positions, optionally with one injected fault, with a PWD "
-             "variable that does not name the working directory. Every "
+             "variable that does not name the working directory, DIR spelled with `..` after a symlink to a directory at another depth. Every "
              "source the model selects must end up at DIR/<absolute source path> with identical bytes or stay in place with a "
              "warning; every entry that existed under DIR (or behind its symlinks) is unchanged; in the trace, unlink(source) of "
              "a copied file follows the last write to and the close of its target.",
@@ -184,7 +190,7 @@ CHECKS = {
         technique="runtime monitoring: a foreign process holds fcntl locks; inventory + syscall log + drop model",
         text="A helper process holds POSIX write or read locks (whole file, first byte, a record inside the file or past its end; in a quarter of the cases fclones' own open-for-write "
              "of the locked file is refused) on chosen droppable members (controls: locks on retained "
-             "members, locks released before the run); every operation runs with and without --no-lock on the real report. "
+             "members, locks released before the run; empty files in reports made with --min 0); every operation runs with and without --no-lock on the real report. "
              "Locked inodes' paths must be untouched and reported ('Failed to lock'), all other droppable files processed "
              "exactly as the reference model says, the processed count must exclude the locked ones; with --no-lock they are "
              "processed like the others.",
@@ -204,7 +210,8 @@ CHECKS = {
              "files and more scenarios. The run must exit 0 with a complete report equal to the reference partition of the tree "
              "without the entry (subtree for a directory; entries after a failed readdir are don't-care; a failed extent query "
              "changes nothing, nor does a failed stat whose result was not needed: the report then equals the fault-free one) and a "
-             "warning must name the entry unless it vanished (ENOENT).",
+             "warning must name the entry unless it vanished (ENOENT). Conservation monitor (hook H5): in every fault run the open-files semaphore holds as many "
+             "permits when grouping ends as when it started.",
         note="Faults are at libc call granularity. A run that does not end is a violation only if the quiescence test shows the process "
              "and its live descendants asleep without progress.  Cases whose fault did not fire (the call sequence varies with the schedule for "
              "hard-linked files) are inconclusive and reported as such. Trusted base as for C03.",
@@ -215,7 +222,8 @@ CHECKS = {
         text="Trees with hard links and file symlinks inside and across 1..4 roots are grouped under every combination of "
              "--rf-over k / --rf-under k / --unique with -H, --isolate, -S and a transform; the reported groups must equal the "
              "documented replica rule applied to the byte partition (README 'Handling links'; its 4-hard-link table is case 0); "
-             "30% of the multi-root trees use root names that are string prefixes of each other. "
+             "30% of the multi-root trees use root names that are string prefixes of each other; 15% of the runs add --skip-content-hash "
+             "(the counting rule does not depend on the stages that ran). "
              "Each tree is grouped again with the roots spelled as ./x, x/, y/../x, through a directory symlink, absolute, and "
              "from another working directory with --base-dir: every spelling must give the same groups.",
         note=COMMON_NOTE + "Overlapping roots under --isolate are undocumented and not generated; -H together with -S is excluded.",
@@ -246,7 +254,7 @@ CHECKS = {
              "recomputed from the body (documented definitions of redundant/missing), each group header count equals its path "
              "lines, groups are in non-increasing size, paths are absolute, --isolate keeps the paths of one root contiguous and "
              "roots in the given order (also with an input path that is a symlink to a file, below no root), text/JSON/CSV/fdupes "
-             "list the same groups under a varying ambient environment (CLICOLOR_FORCE etc.), -o equals stdout, and the body does not change "
+             "list the same groups under a varying ambient environment (CLICOLOR_FORCE etc.), -o equals stdout (half of the time written onto a file that holds an older, longer report), and the body does not change "
              "with thread settings, root order (without --isolate) or file creation order.",
         note=COMMON_NOTE,
         design="4/C14"),
@@ -258,7 +266,7 @@ CHECKS = {
              "but before the report is written, or after `group` exited. Ten edit kinds (same/different-length rewrite, append, "
              "truncate, delete, delete+recreate, replace by directory / dangling symlink / symlink to a fresh file, touch) on "
              "1..all members of a group, then each of the five operations on the text or JSON report, in time zones east and west "
-             "of UTC, with the length comparison on or off (--transform report, --no-check-size), a fifth of them over two --isolate roots. The inventory taken just "
+             "of UTC, with the length comparison on or off (--transform report, --no-check-size), a fifth of them over two --isolate roots, a fifth of the reports made with -S (then also: a member replaced by a symlink to an old file of another length). The inventory taken just "
              "before the dedupe command is compared with the one after: no content held by a regular file may disappear and "
              "after link / link --soft / dedupe every regular file reads back the same bytes.",
         note=COMMON_NOTE + "Outside the guarantee and never generated: mtime-preserving replacement, and edits closer than one kernel "
@@ -274,8 +282,9 @@ CHECKS = {
              "subset, absolute or cwd-relative, --ignore-case), --one-fs, overlapping/repeated roots and unusual working "
              "directories. The listed paths must contain every 'must' path of an independent reference walk and nothing outside "
              "must + don't-care, with no duplicates.",
-        note=COMMON_NOTE + "Don't-care only where the documentation is silent: an explicitly given hidden root, the contents of a "
-             "directory (or the target of a link) whose own path is excluded, and files whose listing under -L depends on which "
+        note=COMMON_NOTE + "Don't-care only where the documentation is silent: an explicitly given hidden root, what lies behind "
+             "a link whose own path is excluded (files below a *directory* whose own path is excluded are defined: --exclude applies to the paths of files, and pruning "
+             "must not lose a file that is not excluded itself), and files whose listing under -L depends on which "
              "of several overlapping roots reaches a shared directory first (decided by running the reference under depth-first "
              "orders, 60 random schedules of a work list and the deepest-first / shallowest-first ones). Known finding D6 is listed in known_findings.json.",
         design="4/C09"),
@@ -286,7 +295,8 @@ CHECKS = {
              "and suffixes; after each step the same configuration runs uncached with a fresh $HOME and the report bodies must be "
              "identical. Edits: create, modify same length (mtime forwards, or backwards as after restoring an older copy), append, truncate, rename, delete-and-recreate in the same directory "
              "(inode reuse measured), hard-link, copy; the configuration (hash function, transform, prefix/suffix sizes, disk kind) "
-             "may switch between steps (one transform fails on about half of the files after partial output); a quarter of the steps are preceded by a cached run that is SIGKILLed at a hook pause "
+             "may switch between steps (one transform fails on about half of the files after partial output; one rewrites its input file and is read with or without --in-place); "
+             "one tree in seven carries modification times before 1970; a quarter of the steps are preceded by a cached run that is SIGKILLed at a hook pause "
              "point. Only steps with at least one cache hit (event hook) count as non-trivial.",
         note=COMMON_NOTE + "The proviso of the property (every content change also changes mtime in ms or length) is enforced by the "
              "harness.",
